@@ -2108,3 +2108,25 @@ def c17_total_search(rp, seed):
         if bad:
             return dict(rp, x=enc(x), t=enc(t) if t is not None else None), msg
     return None
+
+
+@checker("c13_history")
+def c13_history(rp):
+    """an accepted call, then the same list objects edited in place so that they are malformed"""
+    H, HR, OR = model_cls(rp["model"]), rating_cls(rp["model"]), rating_cls(rp["other"])
+    m = H()
+    teams = [[HR(25.0, 8.0)], [HR(24.0, 7.0), HR(23.0, 6.0)]]
+    getattr(m, rp["first"])(teams)
+    teams[1][0] = OR(22.0, 5.0) if rp["what"] == "foreign-rating" else 21
+    before = [(id(p), dict(p.__dict__)) for t in teams for p in t if hasattr(p, "__dict__")] + [dict(m.__dict__)]
+    try:
+        getattr(m, rp["op"])(teams)
+        verdict = "returned normally"
+    except (TypeError, ValueError):
+        verdict = None
+    except Exception as e:  # noqa: BLE001
+        verdict = f"raised {type(e).__name__}: {e}"
+    after = [(id(p), dict(p.__dict__)) for t in teams for p in t if hasattr(p, "__dict__")] + [dict(m.__dict__)]
+    if verdict is not None:
+        return True, f"{rp['model']}.{rp['op']} on lists edited in place after an accepted {rp['first']} ({rp['what']} in a player slot) {verdict}"
+    return after != before, "rejected" + (" but something was modified" if after != before else "")
